@@ -61,6 +61,20 @@ def audit(ag, sag, cm, ref=None):
     try:
         mol = ag.to_mol()
         facts["smiles"] = Chem.MolToSmiles(mol)
+        # the molecule handed out must be THIS graph (elements, bonds and their orders), whatever the object did before
+        H = nx.Graph()
+        for a in mol.GetAtoms():
+            H.add_node(a.GetIdx(), z=a.GetAtomicNum())
+        for b in mol.GetBonds():
+            H.add_edge(b.GetBeginAtomIdx(), b.GetEndAtomIdx(), o=int(b.GetBondType()))
+        K = nx.Graph()
+        for n, d in G.nodes(data=True):
+            K.add_node(n, z=d["atomic_num"])
+        for u, v, d in G.edges(data=True):
+            K.add_edge(u, v, o=int(d["bond_type"]))
+        same = H.number_of_nodes() == K.number_of_nodes() and H.number_of_edges() == K.number_of_edges() and nx.is_isomorphic(H, K, node_match=lambda x, y: x["z"] == y["z"], edge_match=lambda x, y: x["o"] == y["o"])
+        if not same:
+            out.append({"cls": "c18.to_mol-is-not-the-generated-graph", "msg": f"to_mol() returned {facts['smiles']} ({H.number_of_nodes()} atoms, {H.number_of_edges()} bonds), the generated graph has {K.number_of_nodes()} nodes and {K.number_of_edges()} edges and is not isomorphic to it"})
     except Exception as exc:
         out.append({"cls": "c18.not-sanitisable", "msg": f"to_mol() failed: {type(exc).__name__}: {exc}"[:300]})
     tmpl = {n: d["stochastic_node"] for n, d in G.nodes(data=True)}
@@ -203,10 +217,10 @@ def search_partition(G, tmpl, node_tok, tok_atoms, static, verify, budget=3000):
         return "budget"
 
 
-def generate(sag, rng):
+def generate(sag, rng, reuse=None):
     from gbigsmiles import AtomGraph
 
-    ag = AtomGraph(sag, rng=rng)
+    ag = reuse if reuse is not None else AtomGraph(sag, rng=rng)
     with time_limit(40):
         with steps.line_budget(LINE_BUDGET):
             ag.generate()
@@ -221,10 +235,12 @@ def run_case(case):
     viol, nt = [], set()
     sample = None
 
-    def one(sag, cm, ref, g, label, text):
+    def one(sag, cm, ref, g, label, text, reuse=None, keep=None):
         trace.reset()
         try:
-            ag = generate(sag, g)
+            ag = generate(sag, g, reuse)
+            if keep is not None:
+                keep.append(ag)
         except StepTimeout:
             if any(e["k"] == "draw_exc" and "StepTimeout" in e.get("exc", "") for e in trace.events):
                 cnt["skipped_draw_runaway"] += 1  # the time was spent inside a Schulz-Zimm draw (C11's listed runaway search), not in atom-graph generation
@@ -285,6 +301,14 @@ def run_case(case):
                         cnt["equal_seed_pairs"] += 1
                         if f1["smiles"] != f2["smiles"]:
                             viol.append({"cls": "c18.equal-seeds-differ", "msg": f"seed {s} gave {f1['smiles']} and then {f2['smiles']}", "text": text})
+                if gi == 1 and f1 is not None:
+                    # one AtomGraph object generating several times (to_mol() after each): every result is audited like a first one
+                    kept = []
+                    one(sag, cm, ref, R.SpyRNG(s + 1), f"seed{s + 1}-object-first-use", text, keep=kept)
+                    for rep in range(2):
+                        if kept:
+                            one(sag, cm, ref, None, f"seed{s + 1}-object-reused-{rep + 1}", text, reuse=kept[0])
+                            cnt["reused_object_generations"] += 1
                 if sample is None and f1 and "smiles" in f1:
                     sample = {"input": text, "rng_seed": s, "smiles": f1["smiles"], "residues": f1["residues"]}
     else:
